@@ -1,3 +1,4 @@
 /- C01: every proof module of the slice (the check builds and audits this root) -/
 import OidcModel.Proofs.C01
 import OidcModel.Proofs.C01Construct
+import OidcModel.Proofs.C01Time
